@@ -1,6 +1,7 @@
 //! `mc <property> [--tier quick|thorough] [--shard i/n] [--out file] [--replay file]`
 use vkit::report::{Args, Report};
 
+mod c02;
 mod c06;
 mod c09;
 mod smoke;
@@ -12,6 +13,7 @@ fn main() {
     let mut rep = Report::new(&args);
     match args.prop.to_lowercase().as_str() {
         "smoke" => smoke::run(&args, &mut rep),
+        "c02" => c02::run(&args, &mut rep),
         "c06" => c06::run(&args, &mut rep),
         "c09" => c09::run(&args, &mut rep),
         other => {
